@@ -211,4 +211,9 @@ SumSeq(s) == IF s = <<>> THEN 0 ELSE s[1] + SumSeq(Tail(s))
 SizePdu(oidLens, intSizes) ==
   SizeTLV(SumSeq(intSizes) + SizeTLV(SumSeq([i \in 1..Len(oidLens) |-> SizeVarBind(oidLens[i])])))
 SizeCommunityMsg(communityLen, pduSize) == SizeTLV(3 + SizeTLV(communityLen) + pduSize)
+(* v3 (RFC 3412 / 3414).  idSize = size of the msgID INTEGER TLV; dataSize = size of msgData *)
+SizeScoped(engineLen, pduSize) == SizeTLV(SizeTLV(engineLen) + 2 + pduSize)
+SizeUsm(engineLen, boots, time, userLen, authLen, privLen) ==
+  SizeTLV(SizeTLV(SizeTLV(engineLen) + SizeInt(boots) + SizeInt(time) + SizeTLV(userLen) + SizeTLV(authLen) + SizeTLV(privLen)))
+SizeV3Msg(idSize, maxSizeSize, usmSize, dataSize) == SizeTLV(3 + SizeTLV(idSize + maxSizeSize + 3 + 3) + usmSize + dataSize)
 =============================================================================
